@@ -168,6 +168,31 @@ class BlockProbe(BlockMiddleware):
         return self._r("icomment", implicit_comment, "transform_implicit_comment")
 
 
+class RawBlockProbe(BlockMiddleware):
+    """Block probe overriding the documented per-block hook `transform_block` itself: it is asked about every
+    block of the library, failed blocks included."""
+
+    def __init__(self, rets):
+        super().__init__(allow_inplace_modification=True, allow_parallel_execution=False)
+        self.rets = rets
+
+    def transform_block(self, block, library):
+        return make_result(self.rets.get(kind_of(block), "same"), block)[0]
+
+
+FAILED_RETURNS = ["same", "none", "empty-list", "empty-tuple", "list1", "list2", "generator", "object", "int0", "false", "list-with-nonblock", "str", "dict", "library"]
+
+
+def raw_block_probe_reference(rets, library):
+    out = []
+    for b in library.blocks:
+        _res, exp = make_result(rets.get(kind_of(b), "same"), b)
+        if exp == "TypeError":
+            raise TypeError("non-block result")
+        out.extend(exp)
+    return Library(out)
+
+
 def block_probe_reference(rets, library):
     """The documented protocol, written independently: splice per-block results in order, failed blocks pass through."""
     out = []
@@ -188,6 +213,8 @@ def instantiate(spec):
     if "probe" in spec:
         if spec["probe"] == "lib":
             return LibProbe(spec["tag"]), (lambda lib, t=spec["tag"]: lib_probe_apply(t, lib))
+        if spec["probe"] == "rawblock":
+            return RawBlockProbe(spec["rets"]), (lambda lib, r=spec["rets"]: raw_block_probe_reference(r, lib))
         return BlockProbe(spec["rets"]), (lambda lib, r=spec["rets"]: block_probe_reference(r, lib))
     mw = libgen.make_middleware(spec, inplace=True)
     ref = libgen.make_middleware(spec, inplace=True)
@@ -248,7 +275,7 @@ def o_parse(inp):
     if inp["via"] == "file" and not encodable(text, enc):
         return (None, False, ("not-encodable",))
     nsens = sum(1 for s in (ps or []) + (am or []) if "probe" in s)
-    nontrivial = nsens >= 2 or (inp["via"] == "file" and enc != "utf-8" and not text.isascii()) or any(s.get("probe") == "block" and any(r != "same" for r in s["rets"].values()) for s in (ps or []) + (am or []))
+    nontrivial = nsens >= 2 or (inp["via"] == "file" and enc != "utf-8" and not text.isascii()) or any(s.get("probe") in ("block", "rawblock") and any(r != "same" for r in s["rets"].values()) for s in (ps or []) + (am or []))
     if nsens >= 2:
         cls.append(">=2-order-sensitive")
     if inp["via"] == "file":
@@ -457,6 +484,18 @@ def w_block_probes(acc, kind_i):
             acc.run("parse", o_parse, {"doc": doc, "parse_stack": [spec, LIB_PROBES[1]], "append_middleware": None, "via": "string"}, True)
 
 
+def w_raw_block_probes(acc):
+    """Probes overriding transform_block: failed blocks (parse failures, duplicate keys / fields) are blocks like any other."""
+    for ret in FAILED_RETURNS:
+        for doc in range(N_DOCS):
+            for rets in ({"failed": ret}, {"failed": ret, "entry": "list2"}, {"failed": "list2", "entry": ret}):
+                spec = {"probe": "rawblock", "rets": rets}
+                acc.run("parse", o_parse, {"doc": doc, "parse_stack": [spec], "append_middleware": None, "via": "string"}, True)
+                acc.run("parse", o_parse, {"doc": doc, "parse_stack": None, "append_middleware": [spec, LIB_PROBES[0]], "via": "string"}, True)
+                acc.run("write", o_write, {"doc": doc, "unparse_stack": [spec], "prepend_middleware": None, "fmt": None, "via": "string"}, True)
+    acc.classes["raw-block-probe"] += 1
+
+
 def w_isolation(acc):
     for doc in range(N_DOCS):
         for edit in ("append", "pop", "clear"):
@@ -501,6 +540,7 @@ def run(chk):
     for k in range(len(KINDS)):
         tasks.append(("w_block_probes", (k,)))
     tasks.append(("w_isolation", ()))
+    tasks.append(("w_raw_block_probes", ()))
     n_rand = 40000 if quick else 400000
     shards = 16 if quick else 64
     for s in range(shards):
@@ -523,5 +563,5 @@ def run(chk):
         "order-sensitive members, a non-UTF-8 file with non-ASCII content, a block probe returning something other than one block, "
         "or a file target."
     )
-    chk.required_classes = ["parse:string", "parse:file", "write:string", "write:path", "write:file", "write:stringio", "both-given", ">=2-order-sensitive", "block-probe", "enc:gbk", "enc:utf-16", "enc:latin-1", "non-ascii-file", "default-stack-isolation"]
+    chk.required_classes = ["parse:string", "parse:file", "write:string", "write:path", "write:file", "write:stringio", "both-given", ">=2-order-sensitive", "block-probe", "raw-block-probe", "enc:gbk", "enc:utf-16", "enc:latin-1", "non-ascii-file", "default-stack-isolation"]
     chk.assumptions = ["documents contain no carriage return (text-mode file reading translates line endings)", "an empty non-list collection returned by a block middleware (e.g. '') counts as 'empty'; not asserted either way"]
